@@ -53,12 +53,14 @@ def main(c):
                 a, b, cc = rs(UNRES, ln()), "", ""
             exp = rnd.choice([0, 1, 60, 604800, 2147483647, -1, -2147483647])
         prev = (var, t, keyid, secret, region, a, b, cc, body, exp)
+        if rnd.random() < 0.08:
+            lines.append("tz " + rnd.choice(["PST8PDT", "JST-9", "UTC+12", "UTC-14", "NZST-12NZDT,M9.5.0,M4.1.0/3", "-", "UTC"]))
         lines.append("sig %s %d %s %s %s %s %s %s %s %d" % (var, t, hs(keyid), hs(secret), hs(region), hs(a), hs(b), hs(cc), body if var != "s3q" else "none", exp))
     c.cov["calls"] = len(lines)
     g.run(c, exe, lines, "sig", per=60, shuffle=False)      # (the order matters: consecutive requests share all but one argument)
     c.cov["rule"] = ("requests for the four variants (S3 headers, S3 query string, generic service, DynamoDB) with key ids / regions / buckets / services / paths / operation names "
                      "over the URI-unreserved alphabet of length 0..200, secrets over printable ASCII (incl. lengths 60/61/124 around the HMAC block), bodies absent / empty / "
-                     "1..4000 bytes, a third of the requests repeating the previous one with exactly one argument changed (statelessness across calls), expiry values incl. INT_MAX and negative, wrapped time() at epoch, day and leap-day boundaries, 2038 and beyond; each result validated by "
+                     "1..4000 bytes, a third of the requests repeating the previous one with exactly one argument changed (statelessness across calls), expiry values incl. INT_MAX and negative, process time zones west and east of UTC, wrapped time() at epoch, day and leap-day boundaries, 2038 and beyond; each result validated by "
                      "TLC against SigV4.tla (canonical request, string to sign, key derivation; content hash = SHA-256(body); scope date = date part of the timestamp); "
                      "an execution = 60 requests")
     c.cov["trusted_base"] = ["TLC", "JDK SHA-256 primitive", "civil-date arithmetic in SigV4.tla"]
